@@ -58,6 +58,19 @@ fn plans(th: bool) -> Vec<Plan> {
             v.push(Plan { tracker: "ws", point, mode: "panic", nth, workers: w, traffic: true, signal: false });
         }
     }
+    // metrics (prometheus) worker: stops at start-up, in the first moments, after requests were served; or cannot bind its endpoint
+    let mut prom: Vec<&'static str> = vec!["udp-mio", "http", "ws"];
+    if th {
+        prom.push("udp-uring");
+    }
+    for tracker in prom {
+        for mode in ["panic", "return"] {
+            v.push(Plan { tracker, point: "common/prometheus/start", mode, nth: 1, workers: 1, traffic: false, signal: false });
+            v.push(Plan { tracker, point: "common/prometheus/loop", mode, nth: 1, workers: 1, traffic: false, signal: false });
+            v.push(Plan { tracker, point: "common/prometheus/loop", mode, nth: 12, workers: if th { 2 } else { 1 }, traffic: true, signal: false });
+        }
+        v.push(Plan { tracker, point: "prometheus-bind-failure", mode: "setup", nth: 1, workers: 1, traffic: false, signal: false });
+    }
     // without hooks: a socket that cannot be set up (address not local)
     for tracker in ["udp-mio", "udp-uring", "http", "ws"] {
         v.push(Plan { tracker, point: "bind-failure", mode: "setup", nth: 1, workers: 1, traffic: false, signal: false });
@@ -75,6 +88,12 @@ fn run_plan(p: &Plan) -> Result<(String, i64), (String, String)> {
         "http" => json!({"socket_workers": p.workers, "swarm_workers": p.workers, "cleaning": {"torrent_cleaning_interval": 1}}),
         _ => json!({"socket_workers": p.workers, "swarm_workers": p.workers, "cleaning": {"torrent_cleaning_interval": 1}}),
     };
+    if p.point.contains("prometheus") {
+        let addr = if p.point == "prometheus-bind-failure" { "192.0.2.99:PORT1" } else { "127.0.0.1:PORT1" };
+        let section = if kind == "udp" { "statistics" } else { "metrics" };
+        cfg[section]["run_prometheus_endpoint"] = json!(true);
+        cfg[section]["prometheus_endpoint_address"] = json!(addr);
+    }
     if p.point == "bind-failure" {
         if kind == "ws" {
             cfg["network"] = json!({"address": "192.0.2.99:PORT"});
@@ -83,7 +102,8 @@ fn run_plan(p: &Plan) -> Result<(String, i64), (String, String)> {
         }
     }
     let plan = json!({"point": p.point, "mode": p.mode, "nth": p.nth});
-    let envs: Vec<(&str, String)> = if p.point == "bind-failure" { vec![] } else { vec![("AQV_FAULT_PLAN", plan.to_string())] };
+    let setup = p.mode == "setup";
+    let envs: Vec<(&str, String)> = if setup { vec![] } else { vec![("AQV_FAULT_PLAN", plan.to_string())] };
     let mut t = TrackerChild::spawn(kind, cfg, &envs);
     let t0 = Instant::now();
     let mut fired_seen: Option<Instant> = None;
@@ -99,10 +119,10 @@ fn run_plan(p: &Plan) -> Result<(String, i64), (String, String)> {
             if !line.contains("RUN-RETURNED Err") {
                 return Err(("run-returned-ok".into(), format!("run() returned Ok after a worker stopped: {}", line)));
             }
-            if p.point != "bind-failure" && after_fault < 0 {
+            if !setup && after_fault < 0 {
                 return Err(("vacuous".into(), format!("run() returned before the fault point was reached: {}", line)));
             }
-            let ms = if p.point == "bind-failure" { t0.elapsed().as_millis() as i64 } else { after_fault };
+            let ms = if setup { t0.elapsed().as_millis() as i64 } else { after_fault };
             if ms > 10_000 {
                 return Err(("too-slow".into(), format!("run() returned {} ms after the worker stopped (limit 10 s): {}", ms, line)));
             }
@@ -119,8 +139,8 @@ fn run_plan(p: &Plan) -> Result<(String, i64), (String, String)> {
             if f.elapsed() > Duration::from_millis(11_500) {
                 return Err(("still-running".into(), format!("worker stopped at {} ({}), tracker still running {} ms later", p.point, p.mode, f.elapsed().as_millis())));
             }
-        } else if t0.elapsed() > Duration::from_secs(if p.point == "bind-failure" { 11 } else { 25 }) {
-            if p.point == "bind-failure" {
+        } else if t0.elapsed() > Duration::from_secs(if setup { 11 } else { 25 }) {
+            if setup {
                 return Err(("still-running".into(), "socket could not be set up, tracker still running after 11 s".into()));
             }
             return Err(("vacuous".into(), format!("fault point {} (hit {}) never reached", p.point, p.nth)));
@@ -178,8 +198,8 @@ fn run_plan(p: &Plan) -> Result<(String, i64), (String, String)> {
 
 pub fn main(args: &Args) -> ! {
     let mut run = Run::new(args, "fault_enumeration");
-    run.set("rule", "fault plan = tracker {udp-mio, udp-uring, http, ws} x fault point (hook H6 probes in every worker kind: socket start / loop / accept / connection task, swarm start / request handler / control handler / cleaning timer, cleaning thread, statistics thread, signal thread) x mode {panic at every point; return at points where returning ends the worker function} x time {first hit, after requests were served} x workers {1, 2}; plus socket set-up failure without hooks. Each plan is one child process running run(); non-trivial = the fault point was actually reached (a plan whose point is never reached is exit 2); distinct = distinct plans");
-    run.assume("a worker that hangs without finishing is not in the property; the metrics (prometheus) worker is not exercised (feature off in the harness build)");
+    run.set("rule", "fault plan = tracker {udp-mio, udp-uring, http, ws} x fault point (hook H6 probes in every worker kind: socket start / loop / accept / connection task, swarm start / request handler / control handler / cleaning timer, cleaning thread, statistics thread, signal thread; hook H9 in the metrics (prometheus) thread: before serving and on a 100 ms tick while serving) x mode {panic at every point; return at points where returning ends the worker function} x time {first hit, after requests were served} x workers {1, 2}; plus, without hooks, a tracker socket and a metrics endpoint that cannot be set up (address not local). Each plan is one child process running run(); non-trivial = the fault point was actually reached (a plan whose point is never reached is exit 2); distinct = distinct plans");
+    run.assume("a worker that hangs without finishing is not in the property; a panic inside the metrics thread's detached render task is caught by tokio and does not stop the worker, so it is not a fault plan");
     let ps = plans(args.tier.thorough());
     let mut results: Vec<Result<(String, i64), (String, String)>> = par_map(&ps, 16, |p| run_plan(p));
     // timing is part of the property: a plan that fails while 16 trackers run side by side is run again on its own,
